@@ -128,7 +128,7 @@ func cmdCheck(args []string) {
 	missingFuncs := map[string]bool{}
 	for _, k := range keys {
 		ct := p.contracts[k]
-		fn := fns[k]
+		fn := fns[baseKey(k)]
 		if ct == nil {
 			problems = append(problems, "no contract for "+k)
 			continue
